@@ -171,7 +171,8 @@ def run(chk):
     for cls_name in ("EvolvedMF", "EvolvedMFWithBH"):
         for nrm in ("N", "M"):
             tcc_ = float(rng.choice([5000.0, 800.0]))
-            kwc = dict(m_breaks=[0.1, 0.5, 1.0, 100], a_slopes=[-0.5, -1.3, -2.5], nbins=[3, 3, 8], FeH=-1.0, tout=[float(rng.choice([100.0, 300.0]))],
+            kwc = dict(m_breaks=[0.1, 0.5, 1.0, 100], a_slopes=[-0.5, -1.3, -2.5], nbins=[3, 3, 8], FeH=-1.0,
+                       tout=[float(rng.choice([100.0, 300.0, 2.0 * tcc_]))],        # the construction itself may or may not integrate past tcc
                        esc_rate=-10.0, N0=5e5, tcc=tcc_, esc_norm=nrm, md=float(rng.choice([1.2, 0.8])))
             if cls_name == "EvolvedMFWithBH":
                 kwc["f_BH"] = 0.0
@@ -180,8 +181,15 @@ def run(chk):
                 mc = getattr(emf, cls_name).from_powerlaw(**kwc)
             mbk = mc.massbins
             y = mbk.pack_values(mc.Ns[-1], mc.alpha[-1], *[x[-1] for x in mc.Nr], *[x[-1] for x in mc.Mr])
-            for t_ in (0.5 * tcc_, 2.0 * tcc_):
-                dNs, dal, dNr, dMr = mbk.unpack_values(mc._derivs_esc(t_, y.copy()), grouped_rem=True)
+            seen_ = {}
+            for t_ in (0.5 * tcc_, 2.0 * tcc_, 0.5 * tcc_, 2.0 * tcc_):
+                raw_ = np.array(mc._derivs_esc(t_, y.copy()), dtype=float)
+                # the field is a function of (t, y): the same point gives the same derivative whatever was evaluated in between
+                if t_ in seen_ and not np.array_equal(raw_, seen_[t_], equal_nan=True):
+                    chk.fail("the escape field at (t, y) does not depend on which ages were evaluated before (regime chosen by t < tcc alone)",
+                             dict(cls=cls_name, norm=nrm, tcc=tcc_, t=t_, tout=kwc["tout"]), dict(max_abs_difference=float(np.nanmax(np.abs(raw_ - seen_[t_])))))
+                seen_.setdefault(t_, raw_)
+                dNs, dal, dNr, dMr = mbk.unpack_values(raw_.copy(), grouped_rem=True)
                 Ns_ = mc.Ns[-1]
                 pop = Ns_ > 1
                 fr = dNs[pop] / Ns_[pop]
